@@ -242,19 +242,19 @@ BWit(m, fl) ==
 \* map_local on the flow with its final URL; p = post record, e = what the documented procedure yields
 LJudge2(m, fl, p, e) ==
   CASE e.code = 200 ->
-         IF ~p.resp \/ p.code # 200 THEN <<"X03.map_local", "not_served">>
+         IF ~p.resp \/ p.code # 200 THEN <<"X03.map_local", "not_served", m.taint.ml>>
          ELSE IF p.sb # m.files[e.f].c
               THEN <<"X03.map_local", IF \E i \in MLServing(m.w, m.files, fl, m.act.ml) :
                                             \E c \in ToSet(MLCands(m.w, m.files, m.w.rules[i], fl)) :
                                                c # 0 /\ c # e.f /\ m.files[c].present /\ m.files[c].c = p.sb
-                                      THEN "order" ELSE "wrong_content">>
+                                      THEN "order" ELSE "wrong_content", m.taint.ml>>
               ELSE <<>>
-    [] e.code = 404 -> IF ~p.resp \/ p.code # 404 \/ p.sb # <<>> THEN <<"X03.map_local", "no_404">> ELSE <<>>
-    [] OTHER -> IF p.resp THEN <<"X03.map_local", "unexpected_response">> ELSE <<>>
+    [] e.code = 404 -> IF ~p.resp \/ p.code # 404 \/ p.sb # <<>> THEN <<"X03.map_local", "no_404", m.taint.ml>> ELSE <<>>
+    [] OTHER -> IF p.resp THEN <<"X03.map_local", "unexpected_response", m.taint.ml>> ELSE <<>>
 LJudge(m, fl, p) ==
   IF MLTrav(m.w, fl, m.act.ml)
   THEN (IF p.resp /\ p.code = 200 /\ \E f \in (1..Len(m.files)) \ InsideFiles(m.w) : p.sb = m.files[f].c /\ p.sb # <<>>
-        THEN <<"X03.map_local", "traversal">> ELSE <<>>)
+        THEN <<"X03.map_local", "traversal", m.taint.ml>> ELSE <<>>)
   ELSE LJudge2(m, fl, p, MLRun(m.w, m.files, fl, m.act.ml, FALSE, FALSE))
 LWit2(m, fl, e) ==
   (IF e.code = 200 THEN {"ml_served"} ELSE IF e.code = 404 THEN {"ml_404"} ELSE {"ml_nomatch"})
